@@ -663,6 +663,11 @@ def scripts_c01(tier, rng):
     b, s2 = hist_scripts("c01i", n // 4, rng, max_ops=25, queries=("st", "read", "iter"), worker_steps=True)
     for k, v in s2.items():
         s1[k] = s1.get(k, 0) + v
+    # every second history ends with a clean restart: what was read in the session is what the next
+    # session reads, whatever the chunking was (restarts as such are C02)
+    tail = ["flush 9999", "widle", "drop", "open", "st", f"read 0 {U64MAX}"]
+    a = [(nm, l + tail if i % 2 == 0 and "drop" not in l else l) for i, (nm, l) in enumerate(a)]
+    s1["histories-ending-in-a-clean-restart"] = sum(1 for _, l in a if l[-len(tail):] == tail)
     if tier == "thorough":
         # every legal history of up to 4 operations from the state-dependent alphabet, under four
         # chunk-limit classes
